@@ -149,6 +149,28 @@ mod simd {
     }
     include!("suite.rs");
 }
+/// the same checks with `glam-assert` compiled in: none of these operations has a documented precondition, so a
+/// panic there is a failure
+#[cfg(not(feature = "core"))]
+mod asserting {
+    pub const VARIANT: &str = "simd+glam-assert";
+    use ::glam_assert as glam;
+    /// raw register lanes of the SIMD-backed masks (only used to tally what the generator reached)
+    pub fn raw3a(m: glam::BVec3A) -> Option<[u32; 4]> {
+        Some(unsafe { std::mem::transmute::<glam::BVec3A, [u32; 4]>(m) })
+    }
+    pub fn raw4a(m: glam::BVec4A) -> Option<[u32; 4]> {
+        Some(unsafe { std::mem::transmute::<glam::BVec4A, [u32; 4]>(m) })
+    }
+    /// Vec4's mask type in this build, and the comparison routes into BVec4A
+    #[allow(unused_imports)]
+    use self::mbvec4a as mvec4;
+    pub const A4_CMP_ROUTES: u64 = 7;
+    pub fn a4(m: glam::BVec4A) -> glam::BVec4A {
+        m
+    }
+    include!("suite.rs");
+}
 #[cfg(not(feature = "core"))]
 mod scalar {
     pub const VARIANT: &str = "scalar";
@@ -195,6 +217,7 @@ fn main() {
     {
         subs.extend(simd::subs(&args));
         subs.extend(scalar::subs(&args));
+        subs.extend(asserting::subs(&args));
     }
     #[cfg(feature = "core")]
     {
